@@ -8,6 +8,10 @@ from props.common import declref
 UNITS = ['src/crypto/Sha256.cpp', 'src/crypto/HmacSha256.cpp']
 LEVEL = 'other'
 EXPLANATION = (
+    'R-INV (N1, abstract interpretation): the class invariant 0 <= buffer_size_ <= 63 is inductive over Sha256::update and finalize '
+    'for every input span (so for every way of splitting a message into update calls), every buffer_/state_/schedule access and '
+    'memcpy under it is in bounds, every loop has a ranking function; HmacSha256::compute/verify are memory safe for all key, '
+    'message and tag lengths. '
     'R-TABLE against FIPS 180-4 / RFC 2104, computed from first principles in the checker (K = fractional parts of the cube roots '
     'of the first 64 primes, H0 = fractional parts of the square roots of the first 8 primes): the 64 round constants, the 8 '
     'initial state words, rotr, Ch, Maj, the four sigma functions (rotation/shift amounts), big-endian word load/store, the '
@@ -261,3 +265,80 @@ def run(ck):
     rets = [i for i in hc.walk() if hc.nodes[i]['k'] == 'ReturnStmt']
     okr = len(rets) == 1 and hc.nodes[hc.strip(hc.kids(rets[0])[0])].get('callee') == NS + 'Sha256::finalize' and 'outer' in hc.text(rets[0])
     ck.ob('C08.hmac', 'C08.hmac/result', okih and okr, hc.loc(), 'inner_hash = inner.finalize(); the result is outer.finalize()')
+    n1_memory(ck, ck.prog(UNITS))
+
+
+def n1_memory(ck, P):
+    """R-INV (N1): class invariant 0 <= buffer_size_ <= 63 of Sha256 is inductive over update() and finalize() for every input
+    span, and under it every buffer access is in bounds; HmacSha256::compute / verify are memory safe for every key, message
+    and tag length."""
+    from sa.absint2 import Analyzer, summarize, report
+    from sa.absint import Obj
+    from sa.lin import Lin
+    sites = {}
+
+    def merge(an):
+        for key, e in summarize(an).items():
+            cur = sites.get(key)
+            if cur is None:
+                sites[key] = e
+            else:
+                cur['n'] += e['n']
+                cur['failed'] += e['failed']
+    ctor = [f for f in P.fns if f.kind == 'ctor' and f.cls == NS + 'Sha256']
+    init0 = False
+    for f in ctor:
+        for r in f.d.get('inits', []):
+            nd = f.nodes[r]
+            if nd.get('m', '').endswith('::buffer_size_'):
+                from sa.match import const_value as cvf
+                init0 = any(f.nodes[j].get('cv') == '0' for j in f.walk(r))
+    ck.ob('C08.inv', 'C08.inv/constructor', init0, ctor[0].loc() if ctor else '', 'the Sha256 constructor establishes buffer_size_ == 0')
+    for name in ('update', 'finalize'):
+        f = P.fn(NS + 'Sha256::' + name)
+        ck.touch(f)
+        an = Analyzer(P, inline=lambda q: q.startswith(NS))
+        box = {}
+
+        def pre(an_, st, fr, pv):
+            tk = ('this', fr.id)
+            bs = an_.fresh(st, 'buffer_size', 'unsigned long')
+            st.cons.add_le(bs - 63)
+            st.env[tk + ('.buffer_size_',)] = bs
+            st.lens['buf_buffer'] = Lin.const(64)
+            st.env[tk + ('.buffer_',)] = Obj('buf_buffer')
+            st.lens['buf_state'] = Lin.const(8)
+            st.env[tk + ('.state_',)] = Obj('buf_state')
+            box['tk'] = tk
+        rets = an.run(f, pre=pre)
+        merge(an)
+        bad = None
+        for st, _v in rets:
+            bs = st.env.get(box['tk'] + ('.buffer_size_',))
+            if not (isinstance(bs, Lin) and st.cons.entails_le(bs - 63) and st.cons.entails_le(-bs)):
+                bad = (st, bs)
+                break
+        ck.ob('C08.inv', 'C08.inv/' + name, bad is None and rets, f.loc(),
+              'assuming 0 <= buffer_size_ <= 63 on entry, Sha256::%s re-establishes it on every return, for every input (%d return states)%s'
+              % (name, len(rets), '' if bad is None else ' — exit value %r' % (bad[1],)))
+    for name in ('compute', 'verify'):
+        f = P.fn(NS + 'HmacSha256::' + name)
+        ck.touch(f)
+        an = Analyzer(P, inline=lambda q: q.startswith(NS + 'HmacSha256') or q.endswith('constant_time_equal'))
+        rets = an.run(f)
+        merge(an)
+        if name == 'verify':
+            mac = an.param_values[2]
+            bad = None
+            n_true = 0
+            for st, v in rets:
+                if isinstance(v, Lin) and v.is_const() and v.c == 0:
+                    continue
+                n_true += 1
+                if not st.cons.entails_eq(mac.length - 32):
+                    bad = st
+            ck.ob('C08.hmac', 'C08.hmac/verify-exact-length', bad is None and n_true >= 1, f.loc(getattr(bad, 'ret_site', None)) if bad else f.loc(),
+                  'HmacSha256::verify can return true only for a candidate tag of exactly 32 bytes (%d accepting abstract state(s))' % n_true)
+    report(ck, 'C08', sites)
+    ck.floor('C08.bound', 'memory-access obligations in Sha256::update/finalize/transform and HmacSha256', len([1 for e in sites.values() if e['kind'] == 'bound']), 40)
+    ck.floor('C08.loop', 'loops in the SHA-256 / HMAC code', len([1 for e in sites.values() if e['kind'] == 'loop']), 6)
